@@ -218,6 +218,56 @@ pub fn run(ctx: &Ctx) -> CheckOutput {
             }));
         }
     }
+    // quiet stretches: a lively prefix, L identical values, a lively suffix. A recursion's state keeps
+    // evolving while its input (and eventually its own deviation) is exactly constant; a shortcut taken
+    // there shows only in what follows the stretch.
+    {
+        use Kind::*;
+        let e = Spec::echo;
+        let mut list: Vec<Spec> = vec![];
+        for n in if quick { vec![2usize, 3, 4, 7, 12] } else { vec![2, 3, 4, 5, 7, 9, 12, 16, 24] } {
+            list.push(Spec::un(SuperSmoother, n, e()));
+            list.push(Spec::un(LaguerreRsi, n, e()));
+            list.push(Spec::roofing(n, 2, e()));
+            list.push(Spec::with_ma(Eft, n, e(), Spec::un(Ema, 2, e())));
+            list.push(Spec::un(CyberCycle, n, e()));
+            if n >= 3 {
+                list.push(Spec::un(TrendFlex, n, e()));
+                list.push(Spec::un(ReFlex, n, e()));
+                list.push(Spec::with_ma(Pfe, n, e(), Spec::un(Sma, 2, e())));
+            }
+        }
+        list.push(Spec::unp(LaguerreFilter, 0, vec![0.0], e()));
+        list.push(Spec::unp(LaguerreFilter, 0, vec![0.5], e()));
+        for spec in list {
+            jobs.push(Box::new(move || {
+                let mut st = Stats::default();
+                let sink = Sink::new();
+                let lively: [&[f64]; 2] = [&[0.0, 1.0, -1.0, 2.0, 0.5], &[3.0, 1.0, 1.0, -2.0]];
+                let mut drivers: Vec<(&'static str, Vec<f64>)> = vec![];
+                for l in [12usize, 30, 100, 400] {
+                    for c in [1.0, 0.0, -0.7] {
+                        for (a, b) in [(0usize, 1usize), (1, 0)] {
+                            let mut h = lively[a].to_vec();
+                            h.extend(std::iter::repeat(c).take(l));
+                            h.extend_from_slice(lively[b]);
+                            h.extend_from_slice(lively[a]);
+                            drivers.push(("lively / flat / lively", h));
+                        }
+                    }
+                }
+                let len = drivers.iter().map(|d| d.1.len()).max().unwrap_or(0);
+                // judged around both ends of the stretch and sparsely inside it (the batch form is O(t) or worse)
+                let mut at: std::collections::BTreeSet<usize> = (0..30).collect();
+                for l in [12usize, 30, 100, 400] {
+                    at.extend(l..l + 16);
+                }
+                at.extend((0..len).step_by(17));
+                ref_drivers_sparse::<f64>("C11", &spec, &drivers, &at, &mut st, &sink, &|h, hf, v, out| oracle::<f64>(&spec, h, hf, v, out));
+                JobOut { stats: st, viols: sink.take(), samples: vec![json!({"explorer":"LONG (sparse oracle)","scalar":"f64","view":spec.name(),"driver":"2 lively prefixes x flat stretches of 12, 30, 100, 400 values at 3 levels x 2 lively suffixes","drivers":24})] }
+            }));
+        }
+    }
     let o = run_jobs(jobs, ctx.seed);
     CheckOutput {
         stats: o.stats,
